@@ -121,7 +121,8 @@ CHECKS = {
         technique="TLA+ relation spec; TLC-enumerated go commands through the real parser (hook); TLC trace validation"),
     "C05": dict(
         text="Design: Search.tla (PlusCal transcription of find_best_move/negamax/search_until_quiet, table, repetition rule, clock process) "
-             "is model-checked on abstract game graphs for every leaf valuation and child order: ResultIsMinimax, TTSound. Conformance "
+             "is model-checked on abstract game graphs - four hand-written ones and a pseudo-random family of levelled DAGs (RandGraph.tla) - for every "
+             "leaf valuation and child order: ResultIsMinimax, TTSound. Conformance "
              "(verdict): for real positions with a finite quiescence tree the harness dumps the game graph and what completed fixed-depth "
              "searches of a fresh engine concluded (score, move, EVERY table entry); TLC computes the unpruned quiescence value and minimax "
              "from the graph alone and audits root value, move and every cached claim (SearchAudit.tla). On positions of every "
@@ -133,7 +134,7 @@ CHECKS = {
     "C06": dict(
         text="Design: Search.tla with a clock process that may expire at any atomic step, one or two interrupted searches before a completed "
              "one: TTSound at all times, ResultIsMinimax, NothingLeftBehind (the pre-repair behaviour StoreOnAbort=TRUE is kept as a "
-             "regression model TLC must reject). Conformance: for every node count k = 1..total AND every poll index j (the j-th "
+             "regression model TLC must reject); also on the pseudo-random graph family. Conformance: for every node count k = 1..total AND every poll index j (the j-th "
              "should_stop() is the first to answer true) of real searches: interrupted search(es), then a completed one; TLC audits every "
              "cached claim left behind, every later result against minimax, and the repetition stack length. Step-level binding "
              "(no verdict): interrupted + completed searches executed step by step by Search.tla in poll-budget mode (SearchTrace.tla).",
@@ -149,7 +150,7 @@ CHECKS = {
         technique="TLA+/PlusCal search spec model-checked by TLC; node-budget traces of the real search validated by TLC"),
     "C08": dict(
         text="Design: Search.tla on graphs with mated/stalemated terminals: MateInOnePlayed (depth 1..3), NoAvoidableMateAllowed (depth 2..3) "
-             "for every valuation and order. Conformance: candidate positions from engine playouts; TLC recomputes MateInOne / "
+             "for every valuation and order, also on the pseudo-random graph family (mate-rich seeds). Conformance: candidate positions from engine playouts; TLC recomputes MateInOne / "
              "AllowsMateInOne from ChessRules.tla and validates the answers of completed searches of a fresh engine at depths 1..4 / 2..3 "
              "(MateTrace.tla); candidates the specification does not confirm are skipped. Candidates: playouts, synthetic 'won' positions "
              "(king on the edge, mates by every kind of man incl. pawns arriving on the seventh rank) and 'lost' positions (every move "
